@@ -18,7 +18,7 @@ CHECKS = {
  "C06": ("exploration", "runtime monitor: snapshot equality, object-address disjointness (exported fields and the node look-up view), sibling copies and mutation-independence oracle for duplicate and spawn; modular genomes with shared module IO",
          "Held on the sampled genomes (evolved, hand-built, modular)."),
  "C07": ("exploration", "runtime monitor: independent reference implementation of the NEAT compatibility formula compared with both methods on synthetic and evolved gene lists (equal and different genome ids); the measured genomes must stay unchanged",
-         "Held on the sampled pairs; relative tolerance 1e-9 for the different summation orders."),
+         "Held on the sampled pairs (lists of 0..40 genes, now and then 64..4096; innovation numbers up to just below the maximal int64; each genome also against the duplicate the library makes of it); relative tolerance 1e-9 for the different summation orders."),
  "C08": ("exploration", "runtime monitor: hook after every placement in speciate (also inside the three constructors and ReadPopulation of a stored run) recomputes all distances with the reference formula (the library's figure only breaks ties of rounding, no tolerance at the threshold); offline reference speciator on shuffled batches",
          "Held on the placements observed, including representatives exactly at the threshold."),
  "C09": ("exploration", "runtime monitor: quotas, expected offspring and parent pools recomputed from pre-epoch snapshots and compared at the Prepared / ReproduceStart / ReproduceEnd hooks of real epochs (pool size exact; the pool must be unchanged when the species reproduces)",
@@ -26,13 +26,13 @@ CHECKS = {
  "C10": ("exploration", "runtime monitor: independent snapshot of each sizeable species' champion at the Prepared hook, searched for in the next generation",
          "Held on the champions observed (both executors, with stolen babies and delta coding)."),
  "C11": ("exploration", "runtime monitor: expected multigraph built from the genome snapshot compared with Genesis / Phenotype() results and with every graph-view query over all ordered id pairs; re-expression after in-place changes; modules sharing IO nodes; the genome must stay unchanged",
-         "Held on the sampled genomes (<= 40 nodes) and the organisms of real epochs."),
+         "Held on the sampled genomes (<= 40 nodes; modular ones expressed twice and held across UpdatePhenotype as well) and the organisms of real epochs."),
  "C12": ("exploration", "runtime monitor: reference topological evaluation of generated DAGs (forward links may carry the recurrent label) compared with all solver paths: fresh instances, a second input vector, two solvers of one network, mixed-mode sequences with and without flush on one instance",
-         "Held on the sampled DAGs, weights and inputs; tolerance 1e-9 relative for summation order."),
+         "Held on the sampled DAGs (up to 8 hidden neurons; chains of 33-45; layered networks of a hundred to a few hundred neurons), weights and inputs (among them the all-zero vector, a repeated vector, a too short first attempt); tolerance 1e-9 relative for summation order."),
  "C13": ("exploration", "runtime monitor: differential execution of random operation programs on a flushed instance vs a freshly built one, bit-exact; recurrent, time-delayed and modular (generated modules) networks, both solvers",
          "Held on the sampled networks and programs."),
  "C14": ("exploration", "runtime monitor: longest-path DP oracle and visited-mark inspection after capped / uncapped depth queries, mixed query sequences; forward links labelled recurrent; child stack limit turns non-termination into a fatal signature",
-         "Held on the sampled graphs (<= 14 nodes, sparse)."),
+         "Held on the sampled graphs (<= 14 nodes, sparse; chains of 30-330 hidden neurons with a few shortcuts; one bare chain of more than a thousand)."),
  "C15": ("exploration", "runtime monitor: write/read round trips compared by independent snapshots (genomes incl. >500-node ones, organisms one by one and in batches, populations, solver models, experiments incl. empty trials)",
          "Held on the sampled artefacts; module link weights restricted to 1.0 which is all the YAML format can express; no negative zero."),
  "C16": ("exploration", "Go race detector over parallel epochs (delays injected at the Yield / ReproduceStart hooks, cold starts on new Options / Population objects, debug log level, a cancelled epoch) + population monitors + shared-list integrity + porcupine linearizability check of recorded registry histories",
@@ -40,11 +40,11 @@ CHECKS = {
  "C17": ("exploration", "runtime monitor: serialised populations of repeated runs compared in-process (same input objects, changed copy of used options vs fresh options, after unrelated work and a GC) and across separate processes (GOGC=1, GOMAXPROCS=1); inputs must come back unmodified",
          "Held on the sampled scenarios; fitness is a deterministic function of the genome."),
  "C18": ("exploration", "runtime monitor: independent closed forms (relative 1e-12), range, monotonicity (4 ulp tolerance) over breakpoint-dense inputs; module activators incl. input immutability; registry enumerated over all 256 codes and extended at run time on factories of their own",
-         "Held on the sampled inputs with |x| <= 1e300; the registry part is exhaustive over type codes."),
+         "Held on the sampled inputs with |x| <= 1e300 (module vectors of 1-8, now and then up to 5000 inputs); the registry part is exhaustive over type codes and looks up a corpus of about 13 000 strings around the names and codes; concurrent activation through the shared factory in several processes."),
  "C19": ("exploration", "runtime monitor: textbook definitions on sorted copies compared with Floats / Trial / Experiment aggregates over generated series (incl. large common offsets; data-relative tolerances) and synthetic experiments (aggregates re-checked after in-place reordering; returned series must stay stable)",
-         "Held on the sampled series (length 0..200) and experiments; variance asserted for n >= 2."),
+         "Held on the sampled series (length 0..1024, now and then 4096..100001) and experiments (also recorded trial by trial into a pre-allocated list, one record replaced in place); variance asserted for n >= 2."),
  "C20": ("fault_enumeration", "trace checker over the recorded evaluator / observer call log of real Execute runs, enumerating solved patterns, evaluator-error positions (plain, with the solved flag, deadline-like), cancellation points, pre-allocated and reused Experiment objects",
-         "Exhaustive within the stated bounds (trials x generations x solved patterns x fault positions); nothing beyond them."),
+         "Exhaustive within the stated bounds (trials x generations x solved patterns x fault positions; observer and evaluator handed over in several forms, half of the observers asking the running experiment for progress reports); beyond them only a fixed list of longer runs (5-40 trials x 5-35 generations)."),
 }
 
 def registered():
